@@ -408,8 +408,8 @@ creates (`Init`), and whole `bytes` events. Proofs: `H2/Proofs/ClientRunHdr.lean
 section FullModel
 open H2.Client
 
-/-- **Full.stream_ids_increase**: in any run, the stream identifiers of the HEADERS frames the client writes, in the order
-written, are strictly increasing and odd; each is below the `nextID` the connection ends with, which is odd as well.
+/-- **Full.stream_ids_increase**: in any run, the stream identifiers of the frames that open a stream (`runIds`: HEADERS
+frames with END_HEADERS, `.headers`, or without, `.hfrag`; CONTINUATION frames open nothing), in the order written, are strictly increasing and odd; each is below the `nextID` the connection ends with, which is odd as well.
 (Each is the `nextID` held just before its step and that step moves `nextID` up by 2: `Full.headers_carry_nextID`.) -/
 theorem Full.stream_ids_increase (c : Conn) (h : Init c) (evs : List Event) :
     (runIds (run c evs).2).Pairwise (· < ·) ∧
@@ -421,8 +421,8 @@ theorem Full.stream_ids_increase (c : Conn) (h : Init c) (evs : List Event) :
   rw [h.nextID] at x
   exact ⟨y, x, z⟩
 
-/-- **Full.headers_carry_nextID**: the step after any prefix of a run writes no HEADERS and moves `nextID` by 0 or 2, or
-writes exactly one HEADERS, on the `nextID` held before the step, and moves `nextID` up by 2 -/
+/-- **Full.headers_carry_nextID**: the step after any prefix of a run writes no stream-opening frame and moves `nextID` by 0 or 2, or
+writes exactly one (`.headers` or `.hfrag`), on the `nextID` held before the step, and moves `nextID` up by 2 -/
 theorem Full.headers_carry_nextID (c : Conn) (h : Init c) (pre : List Event) (e : Event) :
     (outIds (step (run c pre).1 e).2 = [] ∧
       ((step (run c pre).1 e).1.nextID = (run c pre).1.nextID ∨ (step (run c pre).1 e).1.nextID = (run c pre).1.nextID + 2)) ∨
